@@ -1,6 +1,6 @@
 """C02 - densities and mass functions are proper and match the stated mean and variance (DESIGN 4/C02)."""
 LEVEL = "model_checking"
-RULE = ("One TLC state per row of the reference table spec/ref/dist.ndjson (98 (law, parameter) points covering every "
+RULE = ("One TLC state per row of the reference table spec/ref/dist.ndjson (100 (law, parameter) points covering every "
         "regime: shape <1, =1, >1; dof 1..200 and 1/2; rates 1/1024..1024; Poisson rates 1/1024..1000; binomial n up to"
         " 1000 with success probabilities from 2^-15 to 1 - 2^-15; Bernoulli 2^-15 and 1 - 2^-15; scales down to 2^-10;"
         " locations +-1000; 18 of the rows on a finer parameter grid than quarters: the row carries its denominator) "
@@ -12,13 +12,15 @@ RULE = ("One TLC state per row of the reference table spec/ref/dist.ndjson (98 (
         "points) with the table value (relative 1e-9, measured worst 2.5e-12), closed end points of the documented "
         "support judged like interior points, the same density / mean / variance on objects moved to the row's "
         "parameters by update and by the setters from every other row of the kind, exactly 0, ln_pdf = -inf and no "
-        "panic outside the support, ln_pdf = ln(pdf) at every end point of the support, exact rational masses, ln_pdf ="
-        " ln(pdf), Normal cdf within 1.5e-7, also for the same law in units of 2^-60 and 2^40 (cdf unchanged, density "
-        "times s); total mass and the first two moments of the implementation's OWN density/mass function by summation "
-        "/ graded Gauss-Legendre quadrature against its mean()/var() (bounded or exponential-tail cases; T and Pareto "
-        "with dof/alpha > 4 at 1e-5); MVN (incl. points with |z|^2 = 1600 and beyond, where the density underflows "
-        "while the log-density is an ordinary number): pdf(mu) = (2 pi)^(-d/2)/|det L|, pdf(x)/pdf(mu) = exp(-q/2), "
-        "ln_pdf, mean, var, dimension 1 = Normal. Case class = (law, observable, position class / regime).")
+        "panic outside the support, the point 0 written as -0.0 gives what 0 gives, discrete uniform laws on supports "
+        "of 2^32 .. 2^62 points (mass 1/N, mean, variance (N^2-1)/12), ln_pdf = ln(pdf) at every end point of the "
+        "support, exact rational masses, ln_pdf = ln(pdf), Normal cdf within 1.5e-7, also for the same law in units of "
+        "2^-60 and 2^40 (cdf unchanged, density times s); total mass and the first two moments of the implementation's "
+        "OWN density/mass function by summation / graded Gauss-Legendre quadrature against its mean()/var() (bounded or"
+        " exponential-tail cases; T and Pareto with dof/alpha > 4 at 1e-5); MVN (incl. points with |z|^2 = 1600 and "
+        "beyond, where the density underflows while the log-density is an ordinary number): pdf(mu) = (2 "
+        "pi)^(-d/2)/|det L|, pdf(x)/pdf(mu) = exp(-q/2), ln_pdf, mean, var, dimension 1 = Normal. Case class = (law, "
+        "observable, position class / regime).")
 ASSUMPTIONS = ["irrational density values come from mpmath (tools/gen_disttables.py, 40 digits; committed table): the spec decides support membership, closed-form moments and exact rational masses",
                "values at the end points of a continuous support are a convention and only required to be finite and non-negative",
                "quadrature is used only where the integrand is bounded with light tails, so integration error cannot cause an alarm (tolerances 1e-7 / 1e-5 vs measured < 1e-9)"]
